@@ -88,6 +88,39 @@ pub fn validated_types() -> Vec<(Family, Kind)> {
 	v
 }
 
+/// Run one construction route under a panic guard and compare with the reference verdict.
+/// `payload`: the error is an `Invalid*<T>(pub T)` whose field must be the untouched input.
+#[macro_export]
+macro_rules! verdict {
+	($n:ident, $probs:ident, $b:ident, $expect:ident, $route:expr, $res:expr, $pl:ident) => {{
+		$n += 1;
+		match $crate::engine::guard(|| $res) {
+			$crate::engine::Guard::Ok(Ok(v)) => {
+				if !$expect {
+					$probs.push(($route.to_string(), "accepted an input outside the RFC language".to_string()));
+				} else if v.as_bytes() != $b {
+					$probs.push(($route.to_string(), format!("accepted but text changed to {:?}", $crate::engine::lossy(v.as_bytes()))));
+				}
+			}
+			$crate::engine::Guard::Ok(Err(_e)) => {
+				if $expect {
+					$probs.push(($route.to_string(), "rejected an input of the RFC language".to_string()));
+				} else {
+					$crate::verdict!(@$pl _e, $probs, $b, $route);
+				}
+			}
+			$crate::engine::Guard::Panic(m) => $probs.push(($route.to_string(), format!("panic: {m}"))),
+		}
+	}};
+	(@payload $e:ident, $probs:ident, $b:ident, $route:expr) => {{
+		let back: &[u8] = AsRef::<[u8]>::as_ref(&$e.0);
+		if back != $b {
+			$probs.push(($route.to_string(), format!("error payload is {:?}, not the input", $crate::engine::lossy(back))));
+		}
+	}};
+	(@nopayload $e:ident, $probs:ident, $b:ident, $route:expr) => {{}};
+}
+
 pub mod uri {
 	pub use iref::uri::{
 		Authority, AuthorityBuf, AuthorityMut, Fragment, FragmentBuf, Host, HostBuf, Path, PathBuf, PathMut, Port, PortBuf,
@@ -104,6 +137,56 @@ pub mod uri {
 	#[inline]
 	pub fn own(b: Vec<u8>) -> Option<Owned> {
 		Some(b)
+	}
+	#[inline]
+	pub fn tokens(s: &Str) -> impl Iterator<Item = u8> + '_ {
+		s.iter().copied()
+	}
+	/// Routes that only exist for ASCII byte-string types: `str` / `String` inputs.
+	pub fn extra_routes(kind: super::Kind, b: &[u8], expect: bool, probs: &mut Vec<(String, String)>, n: &mut u64) {
+		let s = match std::str::from_utf8(b) {
+			Ok(s) => s,
+			Err(_) => return,
+		};
+		let mut k = 0u64;
+		macro_rules! r {
+			($T:ident, $TBuf:ident) => {{
+				crate::verdict!(k, probs, b, expect, "new(&str)", $T::new(s), payload);
+				crate::verdict!(k, probs, b, expect, "try_from(&str)", <&$T>::try_from(s), payload);
+				crate::verdict!(k, probs, b, expect, "Buf::try_from(String)", $TBuf::try_from(s.to_string()), payload);
+			}};
+		}
+		use super::Kind;
+		match kind {
+			Kind::Ri => r!(Ri, RiBuf),
+			Kind::RiRef => r!(RiRef, RiRefBuf),
+			Kind::Scheme => r!(Scheme, SchemeBuf),
+			Kind::Authority => r!(Authority, AuthorityBuf),
+			Kind::UserInfo => r!(UserInfo, UserInfoBuf),
+			Kind::Host => r!(Host, HostBuf),
+			Kind::Port => r!(Port, PortBuf),
+			Kind::Path => r!(Path, PathBuf),
+			Kind::Segment => r!(Segment, SegmentBuf),
+			Kind::Query => r!(Query, QueryBuf),
+			Kind::Fragment => r!(Fragment, FragmentBuf),
+		}
+		// byte inputs for Scheme / Port (their "native" branch is skipped in the generic code)
+		match kind {
+			Kind::Scheme => {
+				crate::verdict!(k, probs, b, expect, "new(&[u8])", Scheme::new(b), payload);
+				crate::verdict!(k, probs, b, expect, "try_from(&[u8])", <&Scheme>::try_from(b), payload);
+				crate::verdict!(k, probs, b, expect, "Buf::new(Vec<u8>)", SchemeBuf::new(b.to_vec()), payload);
+				crate::verdict!(k, probs, b, expect, "Buf::try_from(Vec<u8>)", SchemeBuf::try_from(b.to_vec()), payload);
+			}
+			Kind::Port => {
+				crate::verdict!(k, probs, b, expect, "new(&[u8])", Port::new(b), payload);
+				crate::verdict!(k, probs, b, expect, "try_from(&[u8])", <&Port>::try_from(b), payload);
+				crate::verdict!(k, probs, b, expect, "Buf::new(Vec<u8>)", PortBuf::new(b.to_vec()), payload);
+				crate::verdict!(k, probs, b, expect, "Buf::try_from(Vec<u8>)", PortBuf::try_from(b.to_vec()), payload);
+			}
+			_ => {}
+		}
+		*n += k;
 	}
 	include!("body/mod.rs");
 }
@@ -124,6 +207,25 @@ pub mod iri {
 	#[inline]
 	pub fn own(b: Vec<u8>) -> Option<Owned> {
 		String::from_utf8(b).ok()
+	}
+	#[inline]
+	pub fn tokens(s: &Str) -> impl Iterator<Item = char> + '_ {
+		s.chars()
+	}
+	/// Routes that only exist in the IRI family: the from-bytes constructors.
+	pub fn extra_routes(kind: super::Kind, b: &[u8], expect: bool, probs: &mut Vec<(String, String)>, n: &mut u64) {
+		let mut k = 0u64;
+		use super::Kind;
+		match kind {
+			Kind::Ri => {
+				crate::verdict!(k, probs, b, expect, "IriBuf::from_vec", RiBuf::from_vec(b.to_vec()), payload);
+			}
+			Kind::RiRef => {
+				crate::verdict!(k, probs, b, expect, "IriRefBuf::from_vec", RiRefBuf::from_vec(b.to_vec()), payload);
+			}
+			_ => {}
+		}
+		*n += k;
 	}
 	include!("body/mod.rs");
 }
